@@ -85,6 +85,10 @@ def model(ctx):
     else:
         ctx.mcheck("BgzfWriter", "WriterMC", "WriterMC_quick3.cfg", timeout=1800)
         ctx.mcheck("BgzfWriter", "WriterMC", "WriterMC_thorough.cfg", timeout=6000, heap="24g")
+    if ctx.prop == "C09":
+        # liveness under weak fairness: every call of every script returns (no livelock; deadlock
+        # detection above only rules out stuck states)
+        ctx.mcheck("BgzfWriter", "WriterMC", "WriterMC_live.cfg", timeout=3600)
 
 
 _skip = {}
